@@ -19,13 +19,13 @@ namespace ShootVerif.Enum
 theorem C04_collect (i : Input) (h : grammarOK i = true) : collect i.T i.blocks = i.decl :=
   collect_eq_declared _ _ (grammar_of_grammarOK h)
 
-/-- on WF the run succeeds (no `x[Name--1]`), emits the table the specification describes, and the
-    emitted map literals / table references compile -/
+/-- on WF — negative values and values above MaxInt64 included — the run emits the table the
+    specification describes, and the emitted map literals / table references compile -/
 theorem C04_generates (i : Input) (h : WF i = true) :
-    gen i.T i.blocks = .file (specSorted i.decl) ∧ compiles false i.T (specSorted i.decl) = true := by
+    gen i.kind i.T i.blocks = .file (specSorted i.decl) ∧ compiles false i.T (specSorted i.decl) = true := by
   have f := WF.facts h
   have hp : (specSorted i.decl).Perm i.decl := sortBy_perm _ _
-  have ht : sortC (collect i.T i.blocks) = specSorted i.decl := tables_eq h
+  have ht : sortC i.kind (collect i.T i.blocks) = specSorted i.decl := tables_eq h
   constructor
   · unfold gen
     simp only [ht]
@@ -33,13 +33,7 @@ theorem C04_generates (i : Input) (h : WF i = true) :
       cases hs : specSorted i.decl with
       | nil => rw [hs] at hp; exact absurd hp.symm.eq_nil f.nonempty
       | cons _ _ => rfl
-    have hnp : (specSorted i.decl).any (fun c => decide (printed c.val < 0)) = false := by
-      rw [List.any_eq_false]
-      intro c hc
-      have := f.small c (hp.mem_iff.mp hc)
-      rw [printed_small this.1 this.2]
-      simp [this.1]
-    simp [hne, hnp]
+    simp [hne]
   · unfold compiles
     have h1 : (valuesT (specSorted i.decl)).Nodup := (hp.map _).nodup_iff.mpr f.ndVals
     have h2 : (stringsT i.T (specSorted i.decl)).Nodup := (hp.map _).nodup_iff.mpr f.ndNames
@@ -91,9 +85,10 @@ theorem C04_isvalid (i : Input) (h : WF i = true) (x : Int) :
   simp [specValid]
 
 /-- String(), for EVERY integer x: the trimmed name of the declared constant with that value,
-    otherwise the decimal form (no -bit) -/
+    otherwise the decimal form (no -bit) — whatever `_max` (the OR of all constants, negative as soon
+    as one constant is) makes of the `x < 0 || x > _max` test: both of its arms print `%d` -/
 theorem C04_string (i : Input) (h : WF i = true) (x : Int) :
-    stringOf i.T (tables i) x = specString i.T i.decl x := by
+    stringOf i.kind i.T (tables i) x = specString i.T i.decl x := by
   have f := WF.facts h
   unfold stringOf specString
   rw [lookup_stringMap, find?_key_perm (·.val) (tables_perm h) (((tables_perm h).map _).nodup_iff.mpr f.ndVals) x]
@@ -102,13 +97,13 @@ theorem C04_string (i : Input) (h : WF i = true) (x : Int) :
   | some c => simp
 
 theorem C04_string_declared (i : Input) (h : WF i = true) (c : Const) (hc : c ∈ i.decl) :
-    stringOf i.T (tables i) c.val = .name (trim i.T c.name) := by
+    stringOf i.kind i.T (tables i) c.val = .name (trim i.T c.name) := by
   rw [C04_string i h]
   unfold specString
   rw [find?_key_unique (·.val) i.decl (WF.facts h).ndVals c hc]
 
 theorem C04_string_other (i : Input) (h : WF i = true) (x : Int) (hx : ∀ c ∈ i.decl, c.val ≠ x) :
-    stringOf i.T (tables i) x = .dec x := by
+    stringOf i.kind i.T (tables i) x = .dec x := by
   rw [C04_string i h]
   unfold specString
   have : i.decl.find? (fun c => c.val = x) = none := by
@@ -160,60 +155,57 @@ theorem C04_maps_inverse (i : Input) (h : WF i = true) (s : Name) (v : Int) :
 /-- the stale guard `_ = x[Name-value]` compiles iff every declared constant still has the value
     it had when the file was generated -/
 theorem C04_guard (i : Input) (h : WF i = true) (cur : Name → Option Int) :
-    guardOK (tables i) cur = true ↔ ∀ c ∈ i.decl, cur c.name = some c.val := by
+    guardOK i.kind (tables i) cur = true ↔ ∀ c ∈ i.decl, cur c.name = some c.val := by
   have f := WF.facts h
   unfold guardOK
   rw [List.all_eq_true]
   constructor
   · intro hg c hc
     have := hg c ((tables_perm h).mem_iff.mpr hc)
-    rw [printed_small (f.small c hc).1 (f.small c hc).2] at this
+    rw [printed_of_has i.kind f.bits64 c.val (f.inKind c hc)] at this
     cases hcur : cur c.name with
     | none => simp [hcur] at this
     | some v => simp [hcur] at this; congr 1; omega
   · intro hg c hc
     have hc' := (tables_perm h).mem_iff.mp hc
-    rw [printed_small (f.small c hc').1 (f.small c hc').2, hg c hc']
+    rw [printed_of_has i.kind f.bits64 c.val (f.inKind c hc'), hg c hc']
     simp
 
 theorem C04_guard_spec (i : Input) (h : WF i = true) (cur : Name → Option Int) :
-    guardOK (tables i) cur = specGuard i.decl cur := by
+    guardOK i.kind (tables i) cur = specGuard i.decl cur := by
   rw [Bool.eq_iff_iff, C04_guard i h cur]
   simp [specGuard]
-
-/-! ### finding regions: concrete inputs inside the property's quantifier on which the model (and the
-code) differs from the specification -/
 
 def cColor : Name := ['C', 'o', 'l', 'o', 'r']
 def cRed : Name := ['C', 'o', 'l', 'o', 'r', 'R', 'e', 'd']
 def cGreen : Name := ['C', 'o', 'l', 'o', 'r', 'G', 'r', 'e', 'e', 'n']
 
-/-- `type Color int8; const ( ColorRed Color = iota - 1; ColorGreen )` -/
-def negWitness : Input :=
+/-! ### non-vacuity on the formerly failing shapes (regions F_negative / F_big until /repo 9f224b6):
+negative constants and constants above MaxInt64 are in WF and the theorems above speak about them -/
+
+/-- `type Color int8; const ( ColorRed Color = iota - 1; ColorGreen; B Color = -128 )` -/
+def negExample : Input :=
   { T := cColor, kind := ⟨true, 8⟩,
     blocks := [[{ names := [cRed], ty := some cColor, hasVals := true, exprTy := none, vals := [-1] },
-                { names := [cGreen], ty := none, hasVals := false, exprTy := none, vals := [0] }]] }
+                { names := [cGreen], ty := none, hasVals := false, exprTy := none, vals := [0] },
+                { names := [['B']], ty := some cColor, hasVals := true, exprTy := none, vals := [-128] }]] }
 
-/-- a negative constant: the specification has a table, the run fails (`x[ColorRed--1]`) -/
-theorem C04_F_negative_witness :
-    F_negative negWitness = true ∧ gen negWitness.T negWitness.blocks = .formatError ∧
-    specValues negWitness.decl = [-1, 0] := by decide
-
-/-- were the guard printed correctly, the sort by the unsigned key would still put the negative
-    constant last (not ascending) -/
-theorem C04_F_negative_sort_witness :
-    valuesT (tables negWitness) = [0, -1] ∧ specValues negWitness.decl = [-1, 0] := by decide
+example : WF negExample = true ∧ valuesT (tables negExample) = [-128, -1, 0] ∧
+    stringOf negExample.kind negExample.T (tables negExample) (-1) = .name ['R', 'e', 'd'] ∧
+    stringOf negExample.kind negExample.T (tables negExample) (-2) = .dec (-2) ∧
+    stringOf negExample.kind negExample.T (tables negExample) 1 = .dec 1 ∧
+    maxOr negExample.kind (tables negExample) = -1 ∧
+    guardOK negExample.kind (tables negExample) (fun n => (negExample.decl.find? (·.name = n)).map (·.val)) = true := by decide
 
 /-- `type U uint64; const ( UA U = 1; UB U = 1 << 63 )` -/
-def bigWitness : Input :=
+def bigExample : Input :=
   { T := ['U'], kind := ⟨false, 64⟩,
-    blocks := [[{ names := [['U', 'A']], ty := some ['U'], hasVals := true, exprTy := none, vals := [1] },
-                { names := [['U', 'B']], ty := some ['U'], hasVals := true, exprTy := none, vals := [9223372036854775808] }]] }
+    blocks := [[{ names := [['U', 'B']], ty := some ['U'], hasVals := true, exprTy := none, vals := [9223372036854775808] },
+                { names := [['U', 'A']], ty := some ['U'], hasVals := true, exprTy := none, vals := [1] }]] }
 
-/-- a constant above MaxInt64: `valueof` prints it negative and the run fails the same way -/
-theorem C04_F_big_witness :
-    F_big bigWitness = true ∧ gen bigWitness.T bigWitness.blocks = .formatError ∧
-    printed 9223372036854775808 = -9223372036854775808 := by decide
+example : WF bigExample = true ∧ valuesT (tables bigExample) = [1, 9223372036854775808] ∧
+    printed bigExample.kind 9223372036854775808 = 9223372036854775808 ∧
+    stringOf bigExample.kind bigExample.T (tables bigExample) 9223372036854775808 = .name ['B'] := by decide
 
 /-! ### non-vacuity: a concrete declaration in WF using carry-down, a placeholder, a reset by an
 untyped constant, two blocks and a prefix that is trimmed -/
@@ -229,8 +221,8 @@ def wfExample : Input :=
 example : WF wfExample = true ∧
     valuesT (tables wfExample) = [0, 5, 7, 8] ∧
     stringsT wfExample.T (tables wfExample) = [['Z'], ['R', 'e', 'd'], ['G', 'r', 'e', 'e', 'n'], ['B']] ∧
-    stringOf wfExample.T (tables wfExample) 7 = .name ['G', 'r', 'e', 'e', 'n'] ∧
-    stringOf wfExample.T (tables wfExample) 6 = .dec 6 ∧
-    guardOK (tables wfExample) (fun n => if n = cRed then some 6 else none) = false := by decide
+    stringOf wfExample.kind wfExample.T (tables wfExample) 7 = .name ['G', 'r', 'e', 'e', 'n'] ∧
+    stringOf wfExample.kind wfExample.T (tables wfExample) 6 = .dec 6 ∧
+    guardOK wfExample.kind (tables wfExample) (fun n => if n = cRed then some 6 else none) = false := by decide
 
 end ShootVerif.Enum
